@@ -887,6 +887,22 @@ def stage_dim2(ctx, side):
         ops.append(("enum", "d2.enum %s %s %s %s %s %s %s" % (hx(q), hx(tmc[0]), hx(tmc[1]), mh, hx(bound), hx(mt), hx(p)), (q, tmc, bm, bound, p)))
         x, y = rsigned(rng, 3), rsigned(rng, 3)
         ops.append(("bac", "d2.bac %s %s %s %s %s %s %s %s" % (hx(q), hx(x), hx(y), hx(tmc[0]), hx(tmc[1]), mh, hx(bound), hx(p)), None))
+    # membership oracle of the enumeration (condition "vec == w"): is the lattice-shifted vector w = tmc - B(x,y) tested?
+    # (a) the witness of `enumeration_box_misses_ellipse` (Lean): form (4,-4,4), N = 680, z = (7,15): inside the ellipse,
+    #     never visited (bound_y = 14); both sides must say 0.  (b) random small vectors: model <-> C, and the fraction of
+    #     in-bound vectors that is visited is recorded (completeness is NOT a claimed property: soundness oracle only).
+    ops.append(("enumeq", "d2.enumeq 3 0 0 2 -1 0 1 2a8 2710 1 -f", (3, [0, 0], [[2, -1], [0, 1]], 680, [1, -15])))
+    ops.append(("enumeq", "d2.enumeq 3 0 0 2 -1 0 1 2a8 2710 2 0", (3, [0, 0], [[2, -1], [0, 1]], 680, [2, 0])))
+    for i in range(n):
+        q = rng.choice([1, 2, 3, 5, 7, 11])
+        bm = gen_m2(rng, 1 + rng.below(5), rng.choice([0, 2, 3]))
+        tmc = [rsigned(rng, 4), rsigned(rng, 4)]
+        x, y = rsigned(rng, 1 + rng.below(4)), rsigned(rng, 1 + rng.below(4))
+        w = [tmc[0] - (bm[0][0] * x + bm[0][1] * y), tmc[1] - (bm[1][0] * x + bm[1][1] * y)]
+        bound = max(0, n2(q, w) + rsigned(rng, 1 + rng.below(6)))
+        mh = " ".join(hx(v) for row in bm for v in row)
+        ops.append(("enumeq", "d2.enumeq %s %s %s %s %s %s %s %s" % (hx(q), hx(tmc[0]), hx(tmc[1]), mh, hx(bound), hx(100000), hx(w[0]), hx(w[1])),
+                    (q, tmc, bm, bound, w)))
     lines = [o[1] for o in ops]
     cout = [norm_c(o) for o in side.c(1, ["! 5 " + l for l in lines])]
     mout = side.lean(lines)
@@ -913,6 +929,12 @@ def stage_dim2(ctx, side):
                 okp, why = oracle_cvp(data[0], data[1], data[2], c)
             elif kind == "enum":
                 okp, why = oracle_enum(data[0], data[1], data[2], data[3], data[4], c)
+            elif kind == "enumeq":
+                qq, _, _, bnd, ww = data
+                inb = n2(qq, ww) <= bnd
+                if c.split()[0] == "1":
+                    okp, why = (inb and c.split()[1:] == ["1", hx(ww[0]), hx(ww[1]), "0", "0"]), "vector above norm_bound accepted / wrong element"
+                hist(ctx, "dim2_enum_membership(in-bound vector visited?)", ("in-bound:" if inb else "out-of-bound:") + c.split()[0])
         if not okp:
             ctx.violation("d2:%s:%s" % (kind, why), "dimension-2 routine violates its specification: %s" % why,
                           dict(op=line, c_output=c, model_output=m, how="echo '<op>' | drv_lll_1"))
